@@ -196,6 +196,7 @@ func (p *SessionPlan) behaviours() map[string]Behaviour {
 
 // CallResult is what one Execute returned.
 type CallResult struct {
+	Started  bool
 	Returned int // number of times Execute returned (must be 1)
 	Res      atp.ExecutionResult
 	FromStep int // signals received from the step
